@@ -27,10 +27,11 @@ import os
 import z3
 
 from vc import core, pyvc
-from vc.pyvc import Contract, Fork, LoopSpec, SExc, SRecord, to_z3, with_model
+from vc.pyvc import Contract, Fork, LoopSpec, SExc, SMap, SRecord, to_z3, with_model
 
 UTILS = 'hail/python/hailtop/utils/utils.py'
-NONE_U = z3.Const('nothing', pyvc.U)
+NONE_U = z3.Const("nothing", pyvc.U)
+U = pyvc.U
 
 
 def _strict(ctx, eng, label):
@@ -390,6 +391,71 @@ def online():
         raises={}, canaries=[('cancels-nothing', 'forall(lambda j: not CANC[j])')],
     ), 'online-shutdown'))
 
+    # -- __aexit__: returns / raises only when no job is pending; the first exception wins
+    def shutdown2(eng, st, args, kw, node):
+        st.env['n_shutdown'] = st.env['n_shutdown'] + 1
+        me = st.env['self']
+        me.fields['_pending'] = SMap(z3.K(z3.IntSort(), z3.BoolVal(False)), me.fields['_pending'].val, z3.IntVal(0), 'int', 'U')  # None, modelled as the empty map (only its truth value is used here)
+        return None
+
+    def wait_done(eng, st, args, kw, node):
+        # a suspension: other jobs run.  Rely: the stored first exception never changes once set; whenever jobs are pending the
+        # done event is clear (call() clears it, it is set only by the last job out or by shutdown).
+        eng.oblige(st, 'waits-without-holding-a-unit', st.env['HELD'] == 0)
+        me = st.env['self']
+        np_ = pyvc.fresh_value(('map', 'int', 'U'), 'pending_after_wait')
+        for w in pyvc.wf_constraints(np_):
+            st.assume(w)
+        me.fields['_pending'] = np_
+        ex0 = me.fields['_exception']
+        ex1 = z3.Const(pyvc.fresh_name('exception_after_wait'), U)
+        st.assume(z3.Implies(to_z3(ex0, 'U') != z3.Const('const_None', U), ex1 == to_z3(ex0, 'U')))
+        st.assume(ex1 != NONE_U)
+        me.fields['_exception'] = ex1
+        evt = z3.Bool(pyvc.fresh_name('event_is_set'))
+        st.assume(z3.Implies(np_.size > 0, z3.Not(evt)))
+        st.env['EVT'] = evt
+        st.env['n_waits'] = st.env['n_waits'] + 1
+        return None
+
+    def without_enter(eng, st, node):
+        eng.oblige(st, 'gives-up-a-unit-it-holds', st.env['HELD'] >= 1)
+        st.env['HELD'] = st.env['HELD'] - 1
+        return [(st, ('value', None))]
+
+    def without_exit(eng, st, exc):
+        st.env['HELD'] = st.env['HELD'] + 1  # contract (C) of WithoutSemaphore
+        return [(st, None)]
+
+    def setup_exit(eng, st):
+        st.env['ENTRY_EXC'] = st.env['self'].fields['_exception']
+        st.env['truthy_of'] = pyvc.SFunc('truthy_of', lambda e, s_, args, kw, node: e.uf('truthy', ['U'], 'bool')(to_z3(args[0], 'U')))
+        # an exception object is truthy, None is not
+        tr = eng.uf('truthy', ['U'], 'bool')
+        x = z3.Const('tr_x', U)
+        st.assume(z3.Not(tr(z3.Const('const_None', U))))
+        st.assume(z3.ForAll([x], z3.Implies(x != z3.Const('const_None', U), tr(x))))
+
+    out.append((Contract(
+        path=UTILS, qualname='OnlineBoundedGather2.__aexit__', types={'exc_type': 'U', 'exc_val': 'U', 'exc_tb': 'U'}, self_fields={'_pending': 'Map[int, U]', '_exception': 'U', '_sema': 'U', '_done_event': 'U'},
+        consts={'NOTHING': NONE_U}, setup=setup_exit, requires=['self._exception != NOTHING', 'exc_val != NOTHING'],
+        calls={'self._shutdown': shutdown2, 'self._done_event.wait': wait_done, 'self._done_event.is_set': lambda eng, st, args, kw, node: st.env['EVT'], 'with:WithoutSemaphore': with_model(without_enter, without_exit),
+               'log.info': lambda eng, st, args, kw, node: None},
+        ghost_init={'HELD': '1', 'n_shutdown': '0', 'n_waits': '0', 'EVT': 'False'},
+        loops={0: LoopSpec(invariants=[('still-holding-its-unit-between-waits', 'HELD == 1 and n_waits >= 1'), ('pending-jobs-keep-the-event-clear', 'implies(len(self._pending) > 0, not EVT)'),
+                                       ('first-exception-kept', 'implies(not (ENTRY_EXC is None), self._exception == ENTRY_EXC) and implies(ENTRY_EXC is None and truthy_of(exc_val), self._exception == exc_val) and self._exception != NOTHING')],
+                           modifies=['self._pending', 'self._exception', 'EVT', 'n_waits'])},
+        ensures=[
+            ('returns-only-when-no-job-is-pending', 'len(self._pending) == 0 and n_waits >= 1'),
+            ('returns-normally-only-without-a-stored-exception', 'not truthy_of(self._exception)'),
+            ('callers-unit-restored', 'HELD == 1'),
+        ],
+        raises={'*': 'exc == self._exception', 'AssertionError': 'False'},
+        on_raise=[('raises-only-when-no-job-is-pending', 'len(self._pending) == 0 and n_waits >= 1'), ('raises-the-first-exception', 'implies(not (ENTRY_EXC is None), exc == ENTRY_EXC) and implies(ENTRY_EXC is None and truthy_of(exc_val), exc == exc_val)'),
+                  ('callers-unit-restored-on-errors', 'HELD == 1')],
+        canaries=[('never-waits-twice', 'n_waits == 1')],
+    ), 'online-aexit'))
+
     # -- call(): refuses after shutdown
     def setup_call(eng, st):
         st.env['self'] = SRecord('OnlineBoundedGather2', {'_pending': None, '_counter': z3.Int('counter0')})
@@ -405,6 +471,11 @@ SCENARIOS = {
     'run-with-sema': ['parallelism', 'order'], 'run-with-sema-return-exceptions': ['in-place'], 'without-semaphore-enter': ['over-release', 'parallelism'], 'without-semaphore-exit': ['over-release'],
     'gather-return-exceptions': ['in-place', 'order', 'parallelism'], 'gather-raise-exceptions': ['cancel-on-error', 'order', 'parallelism'], 'dispatch': ['in-place', 'cancel-on-error', 'order'], 'bounded-gather': ['parallelism'],
 }
+
+
+def native_witness(ctx):
+    script = open(os.path.join(os.path.dirname(__file__), 'native', 'c20_replay.py')).read()
+    return core.run_native(script, {}, timeout=300)
 
 
 def build(ctx):
